@@ -38,6 +38,7 @@ class CPreProcessor:
         self.files = []  # Stack of included files.
         self.counter = 0  # For the __COUNTER__ macro
         self._int_type = types.BasicType(types.BasicType.INT)
+        self._uint_type = types.BasicType(types.BasicType.UINT)
 
         self.predefine_builtin_macros()
 
@@ -1015,9 +1016,15 @@ class CPreProcessor:
                 lhs = 0
             lhs = expressions.NumericLiteral(lhs, self._int_type, token.loc)
         elif token.typ == "NUMBER":
-            lhs, _ = cnum(token.val)
-            # TODO: check type specifier?
-            lhs = expressions.NumericLiteral(lhs, self._int_type, token.loc)
+            lhs, type_specifiers = cnum(token.val)
+            # In #if all signed types act as intmax_t and all unsigned
+            # types as uintmax_t. A constant is unsigned when it has a u
+            # suffix, or when it does not fit into intmax_t.
+            if "unsigned" in type_specifiers or lhs > _INTMAX_MAX:
+                typ = self._uint_type
+            else:
+                typ = self._int_type
+            lhs = expressions.NumericLiteral(lhs, typ, token.loc)
         elif token.typ == "CHAR":
             lhs, _ = charval(replace_escape_codes(token.val))
             # TODO: check type specifier?
@@ -1084,12 +1091,24 @@ class CPreProcessor:
 
     def _eval_tree(self, expr):
         """Evaluate a parsed tree"""
+        return self._eval_typed(expr)[0]
+
+    def _eval_typed(self, expr):
+        """Evaluate a parsed tree into a value and its unsignedness.
+
+        Signed values are intmax_t, unsigned values are uintmax_t. If either
+        operand of an arithmetic, bitwise or comparison operator is unsigned,
+        the other operand is converted to unsigned as well.
+        """
+        unsigned = False
         if isinstance(expr, expressions.NumericLiteral):
             value = expr.value
+            unsigned = expr.typ is self._uint_type
         elif isinstance(expr, expressions.UnaryOperator):
-            value = self._eval_tree(expr.a)
+            value, unsigned = self._eval_typed(expr.a)
             if expr.op == "!":
                 value = int(not bool(value))
+                unsigned = False
             elif expr.op == "-":
                 value = -value
             elif expr.op == "~":
@@ -1099,28 +1118,66 @@ class CPreProcessor:
         elif isinstance(expr, expressions.BinaryOperator):
             if expr.op == "||":
                 # Short circuit logic:
-                value = self._eval_tree(expr.a)
+                value = self._eval_typed(expr.a)[0]
                 if not value:
-                    value = self._eval_tree(expr.b)
+                    value = self._eval_typed(expr.b)[0]
                 value = int(bool(value))
             elif expr.op == "&&":
                 # Short circuit logic:
-                value = self._eval_tree(expr.a)
+                value = self._eval_typed(expr.a)[0]
                 if value:
-                    value = self._eval_tree(expr.b)
+                    value = self._eval_typed(expr.b)[0]
                 value = int(bool(value))
             else:
                 func = self.OP_MAP[expr.op][2]
-                value = func(self._eval_tree(expr.a), self._eval_tree(expr.b))
+                a, a_unsigned = self._eval_typed(expr.a)
+                b, b_unsigned = self._eval_typed(expr.b)
+                if expr.op in ("<<", ">>"):
+                    # The result has the type of the left operand.
+                    unsigned = a_unsigned
+                else:
+                    unsigned = a_unsigned or b_unsigned
+                    if unsigned:
+                        a &= _UINTMAX_MAX
+                        b &= _UINTMAX_MAX
+                value = func(a, b)
+                if expr.op in ("<", ">", "<=", ">=", "==", "!="):
+                    unsigned = False
         elif isinstance(expr, expressions.TernaryOperator):
-            value = self._eval_tree(expr.a)
+            value = self._eval_typed(expr.a)[0]
             if value:
-                value = self._eval_tree(expr.b)
+                value = self._eval_typed(expr.b)[0]
             else:
-                value = self._eval_tree(expr.c)
+                value = self._eval_typed(expr.c)[0]
+            # The type is the common type of both alternatives:
+            unsigned = self._is_unsigned(expr.b) or self._is_unsigned(expr.c)
         else:  # pragma: no cover
             raise NotImplementedError(str(expr))
-        return value
+        if unsigned:
+            value &= _UINTMAX_MAX
+        return value, unsigned
+
+    def _is_unsigned(self, expr):
+        """Determine, without evaluating it, if an expression is unsigned."""
+        if isinstance(expr, expressions.NumericLiteral):
+            return expr.typ is self._uint_type
+        elif isinstance(expr, expressions.UnaryOperator):
+            return expr.op != "!" and self._is_unsigned(expr.a)
+        elif isinstance(expr, expressions.BinaryOperator):
+            if expr.op in ("<<", ">>"):
+                return self._is_unsigned(expr.a)
+            elif expr.op in ("<", ">", "<=", ">=", "==", "!=", "&&", "||"):
+                return False
+            else:
+                return self._is_unsigned(expr.a) or self._is_unsigned(expr.b)
+        elif isinstance(expr, expressions.TernaryOperator):
+            return self._is_unsigned(expr.b) or self._is_unsigned(expr.c)
+        else:  # pragma: no cover
+            raise NotImplementedError(str(expr))
+
+
+_INTMAX_MAX = (1 << 63) - 1
+_UINTMAX_MAX = (1 << 64) - 1
 
 
 def _c_divide(x, y):
